@@ -211,6 +211,8 @@ def do_integer(m, rng, spec, conv, n):
     _, length, req = spec
     hi = 10**length - 1 if length is not None else 10**15
     vals = [0, 1, hi, hi // 2, rng.randint(0, hi)] + [rng.randint(0, hi) for _ in range(n)]
+    if length is not None:
+        vals += [-hi, -(10 ** (length - 1)), -rng.randint(0, hi), -1]  # as many digits as allowed, with a sign in front
     if length is None:
         # no limit declared: exact at any size (2**53 + 1 is the first integer a float cannot hold)
         vals += [-1, -rng.randint(1, 10**9), 2**53 + 1, -(2**53 + 1), 2**64 + 1, 10**22 + 1, rng.randint(10**16, 10**40) | 1]
@@ -224,6 +226,11 @@ def do_integer(m, rng, spec, conv, n):
         m.reject_text(conv, spec, str(10**length + rng.randint(0, 10**length)), "over-limit-accepted-on-read")
         m.reject_write(conv, spec, 10**length, "over-limit-accepted-on-write")
         m.reject_write(conv, spec, 10**length * 7 + 3, "over-limit-accepted-on-write")
+        # the limit is on digits, whatever the sign
+        m.reject_text(conv, spec, str(-(10**length)), "over-limit-accepted-on-read")
+        m.reject_text(conv, spec, "-" + str(10**length + rng.randint(0, 10**length)), "over-limit-accepted-on-read")
+        m.reject_write(conv, spec, -(10**length), "over-limit-accepted-on-write")
+        m.reject_write(conv, spec, -(10**length * 7 + 3), "over-limit-accepted-on-write")
     for _ in range(n):
         bad = mutated(rng, str(rng.randint(0, hi)))
         try:
@@ -403,6 +410,12 @@ def do_datetime(m, rng, spec, conv, n):
         m.canonical(conv, spec, t)
     for bad in (["1200", "250000", "126000", "12000a", "noon"] if is_time else ["2020", "20201301", "20200230", "20200101240000", "2020-01-01", "yesterday", "20200101T120000"]):
         m.reject_text(conv, spec, bad, "non-notation-text-accepted")
+    # texts of the OTHER of the two notations, right after a converter of that other type has read them (same process, shared state)
+    other = m.T.DateTime() if is_time else m.T.Time()
+    for bad in (["20111117", "20200229120000", "20200229120000.123[-5:EST]", "19991231"] if is_time else ["120000", "235959.999", "000000.000[-5:EST]", "0101"]):
+        m.call(other, "convert", bad)
+        m.ctx.count("cross_type_texts")
+        m.reject_text(conv, spec, bad, "text-of-the-other-notation-accepted")
     naive = datetime.time(1, 2, 3) if is_time else datetime.datetime(2020, 1, 1)
     for bad in (naive, "20200101", datetime.date(2020, 1, 1), 20200101, 1.0):
         m.reject_write(conv, spec, bad, "wrong-python-type-accepted-on-write")
